@@ -531,6 +531,10 @@ def _scenario_case(case, rng, seed, enc):
         X, Xq = np.round(2 * X).astype(int), np.round(2 * Xq).astype(int)
     y = _y_array(enc, Y)
     empty = not any(case["seen"]) and rng.random() < 0.4
+    y_all = _y_array(enc, [i % K for i in range(len(X))])     # every sample labeled, classes cycling
+
+    def pf(c):
+        return c.fit(X, y_all)
 
     def conc(name, **kw):
         d = {"classifier": name, "classes": declared, "missing_label": repr(miss), "cost_matrix": cm,
@@ -541,13 +545,24 @@ def _scenario_case(case, rng, seed, enc):
         d.update(kw)
         return d
 
-    def run(name, clf, fit, site, cfgclass, with_freq, seen=None, **flags):
+    def run(name, clf, fit, site, cfgclass, with_freq, seen=None, prefit=None, **flags):
         nonlocal n_eval
         c2 = dict(case)
         if seen is not None:
             c2["seen"] = seen
         c2["lc"] = c2["seen"]
         tr = _base(c2, enc, "%s/%s/%s" % (name, enc, _case_tag(case)), "num", site, cfgclass, **flags)
+        if prefit is not None and rng.random() < 0.3:
+            # the object has a past: it was fitted before on a completely labeled version of the data (every
+            # declared class present) - the outputs after the observed fit must not remember it
+            try:
+                with warnings.catch_warnings():
+                    warnings.simplefilter("ignore")
+                    prefit(clf)
+                tr["concrete"] = dict(tr.get("concrete") or {}, fitted_before_on="the same X with every sample labeled "
+                                                                               "(classes cycling)")
+            except Exception:
+                pass
         ok, _ = _call(tr, "fit", fit)
         n_eval += 1
         if ok:
@@ -569,7 +584,7 @@ def _scenario_case(case, rng, seed, enc):
                               X=[], y=[], W=None))
         else:
             run("PWC-rbf-nn%s" % nn, clf, lambda: clf.fit(X, y, W), "ParzenWindowClassifier",
-                "kernel", True, votes=True,
+                "kernel", True, votes=True, prefit=pf,
                 concrete=conc("ParzenWindowClassifier(n_neighbors=%s, class_prior=%s)" % (nn, p0)))
     # symbolic bandwidth gamma='mean' (resolved from the training data: degenerate training sets - one row,
     # identical rows - must still give valid probabilities)
@@ -595,6 +610,7 @@ def _scenario_case(case, rng, seed, enc):
                                      weight_mode=mode, classes=declared, missing_label=miss, cost_matrix=cm,
                                      class_prior=float(p0), random_state=seed)
         run("MMC-%s" % mode, clf, lambda: clf.fit(X, y, W), "MixtureModelClassifier", mode, True, votes=True,
+            prefit=pf,
             concrete=conc("MixtureModelClassifier(BayesianGaussianMixture(2), weight_mode=%r, class_prior=%s)"
                           % (mode, p0)))
     # SlidingWindowClassifier(ParzenWindowClassifier): fit on a prefix, partial_fit the rest
@@ -636,9 +652,10 @@ def _scenario_case(case, rng, seed, enc):
                               % (voting, est_classes), y=y2, W=W2))
     clf = AnnotatorLogisticRegression(classes=declared, missing_label=miss, cost_matrix=cm, random_state=seed)
     full = bool(np.array([[v is not None for v in r] for r in Y2]).any(axis=1).all())
+    y2_all = _y_array(enc, [[(i + a_) % K for a_ in range(len(Y2[0]))] for i in range(len(X2))]) if len(Y2) else None
     run("ALR", clf, lambda: clf.fit(X2, y2, W2), "AnnotatorLogisticRegression",
         "weights=%s,all-samples-labeled=%s" % ("given" if W2 is not None else "None", full), False,
-        seen=seen2, concrete=conc("AnnotatorLogisticRegression()", y=y2, W=W2))
+        seen=seen2, prefit=(lambda c: c.fit(X2, y2_all)) if y2_all is not None else None, concrete=conc("AnnotatorLogisticRegression()", y=y2, W=W2))
     if empty:
         clf = AnnotatorLogisticRegression(n_annotators=2, classes=declared, missing_label=miss, cost_matrix=cm,
                                           random_state=seed)
